@@ -34,7 +34,10 @@ ASSUMPTIONS = [
 ]
 
 SELS = [':enabled', ':disabled', ':required', ':optional', ':read-write', ':read-only', ':in-range', ':out-of-range', ':link', ':any-link',
-        ':checked', ':default', ':dir(ltr)', ':dir(rtl)', ':indeterminate', ':placeholder-shown', ':root']
+        ':checked', ':default', ':dir(ltr)', ':dir(rtl)', ':indeterminate', ':placeholder-shown', ':root',
+        # the same questions asked in other words / more than once per element inside one call
+        'button:default', 'form button:default, button:default', 'button:is(:default, [type]:default)', ':has(> button:default)',
+        'input:indeterminate, :indeterminate:not(progress)', ':dir(LTR)', ':dir(Rtl)', ':is(:disabled, :enabled):disabled']
 KNOWN_TYPES = set(lower_ for lower_ in ['text', 'submit', 'radio', 'checkbox', 'hidden', 'number', 'range', 'date', 'week', 'time', 'month',
                                         'datetime-local', 'search', 'tel', 'url', 'email', 'password', 'button', 'reset', 'image', 'file',
                                         'color'])
@@ -186,6 +189,24 @@ def check_doc(sv, d, kind, open_keys, stats, via='module'):
                 {'extra': lab(got - want), 'missing': lab(want - got)}, True, kk)
         else:
             law(':default beyond :checked = first submit button of each form', True, None, bool(want))
+    if R[':default'] is not None:
+        btn = {i for i in R[':default'] if name(ID[i]) == 'button'} if kind != 'xhtml' else {i for i in R[':default'] if ID[i].name == 'button'}
+        for sel in ('button:default', 'form button:default, button:default', 'button:is(:default, [type]:default)'):
+            if R[sel] is not None:
+                law('%s = the buttons among :default' % sel, R[sel] == btn, lab(R[sel] ^ btn), bool(btn))
+        if R[':has(> button:default)'] is not None:
+            par_ = {id(ID[i].parent) for i in btn if id(ID[i].parent) in ID}
+            law(':has(> button:default) = parents of default buttons', R[':has(> button:default)'] == par_, lab(R[':has(> button:default)'] ^ par_), bool(par_))
+    if R[':indeterminate'] is not None and R['input:indeterminate, :indeterminate:not(progress)'] is not None:
+        np_ = {i for i in R[':indeterminate'] if (ID[i].name if kind == 'xhtml' else name(ID[i])) != 'progress'}
+        law(':indeterminate asked twice', R['input:indeterminate, :indeterminate:not(progress)'] == np_,
+            lab(R['input:indeterminate, :indeterminate:not(progress)'] ^ np_), bool(np_))
+    if R[':disabled'] is not None and R[':is(:disabled, :enabled):disabled'] is not None:
+        law(':disabled asked twice', R[':is(:disabled, :enabled):disabled'] == R[':disabled'], lab(R[':is(:disabled, :enabled):disabled'] ^ R[':disabled']),
+            bool(R[':disabled']))
+    for up, lo in ((':dir(LTR)', ':dir(ltr)'), (':dir(Rtl)', ':dir(rtl)')):
+        if R[up] is not None and R[lo] is not None:
+            law('%s = %s' % (up, lo), R[up] == R[lo], lab(R[up] ^ R[lo]), bool(R[lo]))
     if R[':dir(ltr)'] is not None and R[':dir(rtl)'] is not None:
         both = R[':dir(ltr)'] | R[':dir(rtl)']
         # "of a rooted document": the element's own document must hang off the document's root element (first top-level
